@@ -9,8 +9,15 @@ Inductive punct := PComma | PBang | PQuote | PAmp | PColon | PLt | PGt | PSemi |
 Inductive lit := LNat (n: nat) | LStr (s: string).
 Inductive tt := TId (s: string) | TP (c: punct) | TLit (l: lit) | TG (d: delim) (ts: list tt).
 
+(* #[difference(...)] attributes: Attribute.tokens are names and literal values; Attribute.name is always "difference" *)
+Inductive atok := AId (s: string) | ALit (l: lit).
+Definition attr := list atok.
+
+(* CAnon: the body of a struct-like enum variant (Category::AnonymousStruct): attributes, name and type of each field;
+   CNone: Category::None, the "type" of a unit variant *)
 Inductive cvt := CValue (n: nat) | CNamedC (t: ty)
 with cat := CNever | CArray (t: ty) (len: option cvt) | CTuple (l: list ty) | CNamed (path: list string) | CLifetime (s: string) | CUnNamed
+          | CAnon (fields: list (list attr * option string * ty)) | CNone
 with ty := Ty (ident: cat) (wraps: option (list ty)) (rt: option (option string)) (as_other: option ty).
 
 Definition unnamed : ty := Ty CUnNamed None None None.
@@ -48,6 +55,66 @@ Definition ref_prefix (src: list tt) : res (option (option string)) :=
   | _ => Ok None src
   end.
 
+(* ---- attributes (next_attribute, next_attributes_list) and visibility ---- *)
+(* the `loop` of next_attribute over the argument group; attrs = finished attributes, cur = attr_tokens *)
+Fixpoint attr_loop (k: nat) (args: list tt) (attrs: list attr) (cur: attr) : res (list attr) :=
+  match k with 0 => Fuel | S k' =>
+  match args with
+  | [] => Ok attrs []                                                    (* next_eof: break; unfinished tokens are dropped *)
+  | TId name :: a1 =>
+      let cur1 := cur ++ [AId name] in
+      match a1 with
+      | [] => Ok (attrs ++ [cur1]) []
+      | TP PComma :: a2 => attr_loop k' a2 (attrs ++ [cur1]) []
+      | _ =>
+          let a2 := match a1 with TP _ :: r => r | _ => a1 end in       (* `=` or any other punct is consumed *)
+          match a2 with
+          | TLit l :: a3 =>
+              let cur2 := cur1 ++ [ALit l] in
+              match a3 with
+              | [] => Ok (attrs ++ [cur2]) []
+              | TP PComma :: a4 => attr_loop k' a4 (attrs ++ [cur2]) []
+              | TP _ :: a4 => attr_loop k' a4 attrs cur2                 (* another punct: consumed, tokens carried over *)
+              | _ => attr_loop k' a3 attrs cur2
+              end
+          | _ => Panic                                                   (* "Expecting argument value" *)
+          end
+      end
+  | _ => Panic                                                           (* "Expecting attribute name" *)
+  end end.
+
+(* None: no attribute here; Some None: a foreign attribute (skipped); Some (Some l): #[difference(...)] *)
+Definition next_attribute (s: list tt) : res (option (option (list attr))) :=
+  match s with
+  | TP PHash :: s1 =>
+      match s1 with
+      | TG _ body :: rest =>
+          match body with
+          | TId name :: b1 =>
+              if name =? "difference" then
+                match b1 with
+                | TG _ args :: _ => bind (attr_loop (S (List.length args)) args [] []) (fun attrs _ => Ok (Some (Some attrs)) rest)
+                | _ => Panic
+                end
+              else Ok (Some None) rest
+          | _ => Panic
+          end
+      | _ => Panic
+      end
+  | TP _ :: s1 => Ok None s1                                             (* next_punct has consumed it *)
+  | _ => Ok None s
+  end.
+
+Fixpoint attrs_list (k: nat) (acc: list attr) (s: list tt) : res (list attr) :=
+  match k with 0 => Fuel | S k' =>
+    bind (next_attribute s) (fun o s1 =>
+      match o with None => Ok acc s1 | Some None => attrs_list k' acc s1 | Some (Some l) => attrs_list k' (acc ++ l) s1 end)
+  end.
+
+Definition next_vis (s: list tt) : list tt :=
+  match s with TId v :: s1 => if v =? "pub" then match s1 with TG Paren _ :: s2 => s2 | _ => s1 end else s | _ => s end.
+
+
 Section Loops.
 Variable nt : list tt -> res (option ty).
 (* next_tuple: while let Some(t) = next_type { push; if no comma break } *)
@@ -67,6 +134,21 @@ Fixpoint gen_loop (k: nat) (acc: list ty) (s: list tt) : res (list ty) :=
     | _ => Ok acc s
     end
   end.
+(* next_fields: attributes, visibility, `name :` when named, the type, one punct *)
+Fixpoint fields_nt (k: nat) (named: bool) (acc: list (list attr * option string * ty)) (s: list tt) : res (list (list attr * option string * ty)) :=
+  match k with 0 => Fuel | S k' =>
+  match s with
+  | [] => Ok acc []
+  | _ =>
+    bind (attrs_list (S (List.length s)) [] s) (fun attrs s1 =>
+      let s2 := next_vis s1 in
+      let nm : res (option string) :=
+        if named then match s2 with TId n :: TP PColon :: s3 => Ok (Some n) s3 | _ => Panic end else Ok None s2 in
+      bind nm (fun name s3 =>
+        bind (expect (nt s3)) (fun t s4 =>
+          let s5 := match s4 with TP _ :: r => r | _ => s4 end in         (* next_punct: the comma, or whatever punct is there *)
+          fields_nt k' named (acc ++ [(attrs, name, t)]) s5)))
+  end end.
 End Loops.
 
 (* everything after the optional `&['lt]`; nt is next_type at the next lower fuel *)
@@ -86,7 +168,9 @@ Definition after_ref (nt: list tt -> res (option ty)) (rt: option (option string
       | TG Paren inner :: rest =>                        (* next_tuple: while let Some(t) = next_type { push; if no comma break } *)
           bind (tuple_loop nt (S (List.length inner)) [] inner)
                (fun ws _ => Ok (Some (Ty (CTuple ws) (Some ws) rt None)) rest)
-      | TG Brace _ :: _ => Unsup
+      | TG Brace body :: rest =>                         (* next_struct on the group: an anonymous struct with named fields *)
+          bind (fields_nt nt (S (List.length body)) true [] body)
+               (fun fs _ => Ok (Some (Ty (CAnon fs) (Some (map (fun f => snd f) fs)) rt None)) rest)
       | _ =>
         if (match src1 with TId s :: _ => is_kw s | _ => false end) then Unsup      (* impl / dyn / fn-like / as: outside the fragment *)
         else
